@@ -125,7 +125,112 @@ def translate(ctx=None) -> Path:
     # the generated files always describe the tree under test when it can be translated at all; the shape check of the
     # hand-modelled part comes last so that a failure there does not leave tables of an earlier tree behind
     _write_rules(collision, _fmt_lossy())
+    _write_guards(fn[0])
     _check_skeleton(fn[0], bool(collision))
+    return p
+
+
+# ---- path conditions: under which tests each parameter breakage is yielded (-> coq/Gen/C10_guards.v) ----
+BREAKS = {"ParameterRemovedBreakage": "removed", "ParameterChangedRequiredBreakage": "required", "ParameterMovedBreakage": "moved",
+          "ParameterChangedKindBreakage": "kind", "ParameterChangedDefaultBreakage": "default", "ParameterAddedRequiredBreakage": "added"}
+GUARD_ARGS = "(ok nk : kind) (oreq nreq present sw inc same_index differ : bool)"
+
+
+def _gexp(node, asg) -> str:
+    """A test of _function_incompatibilities over the atoms: kinds, required-ness of both parameters, `present` (the loop
+    parameter's name occurs on the other side), the values of `swallowed` / `incompatible_kind`, same index, defaults differ."""
+    src = ast.unparse(node)
+    if isinstance(node, ast.BoolOp):
+        op = " && " if isinstance(node.op, ast.And) else " || "
+        return "(" + op.join(_gexp(v, asg) for v in node.values) + ")"
+    if isinstance(node, ast.UnaryOp) and isinstance(node.op, ast.Not):
+        return f"(negb {_gexp(node.operand, asg)})"
+    if isinstance(node, ast.Name):
+        if node.id == "swallowed":
+            return "sw"
+        if node.id == "incompatible_kind":
+            return "inc"
+        if node.id in ("non_required", "non_variadic") and len(asg.get(node.id, [])) == 1:
+            return _gexp(ast.parse(asg[node.id][0], mode="eval").body, asg)
+    atoms = {"old_param.required": "oreq", "new_param.required": "nreq",
+             "old_param.name not in new_function.parameters": "(negb present)", "old_param.name in new_function.parameters": "present",
+             "new_param.name not in old_function.parameters": "(negb present)", "new_param.name in old_function.parameters": "present",
+             "new_index != old_index": "(negb same_index)", "new_index == old_index": "same_index",
+             "old_param.default != new_param.default": "differ", "old_param.default == new_param.default": "(negb differ)",
+             "old_param.kind is not new_param.kind": "(negb (kind_eqb ok nk))", "old_param.kind is new_param.kind": "(kind_eqb ok nk)",
+             "old_param.kind != new_param.kind": "(negb (kind_eqb ok nk))", "old_param.kind == new_param.kind": "(kind_eqb ok nk)"}
+    if src in atoms:
+        return atoms[src]
+    if isinstance(node, ast.Compare):
+        return _bexp(node)       # kind tests against ParameterKind members / kind sets
+    raise TranslatorError(f"test outside the whitelist in _function_incompatibilities: {src}")
+
+
+def _paths(fn):
+    asg = _assignments(fn)
+    found = {k: [] for k in BREAKS.values()}
+    in_handler = {k: [] for k in BREAKS.values()}
+    bound: dict = {}
+
+    def cls_of(value):
+        if isinstance(value, ast.Call) and isinstance(value.func, ast.Name) and value.func.id in BREAKS:
+            return BREAKS[value.func.id]
+        if isinstance(value, ast.Name) and value.id in bound:
+            return bound[value.id]
+        return None
+
+    def walk(stmts, stack, handler):
+        stack = list(stack)
+        for st in stmts:
+            if isinstance(st, ast.Assign) and len(st.targets) == 1 and isinstance(st.targets[0], ast.Name) and cls_of(st.value):
+                bound[st.targets[0].id] = cls_of(st.value)
+            if isinstance(st, ast.If):
+                walk(st.body, stack + [(st.test, True)], handler)
+                walk(st.orelse, stack + [(st.test, False)], handler)
+                if st.body and isinstance(st.body[-1], (ast.Continue, ast.Return)):
+                    stack.append((st.test, False))
+            elif isinstance(st, (ast.For, ast.With)):
+                walk(st.body, stack, handler)
+            elif isinstance(st, ast.Try):
+                walk(st.body, stack, handler)
+                for h in st.handlers:
+                    walk(h.body, stack, True)
+                walk(st.orelse, stack, handler)
+                walk(st.finalbody, stack, handler)
+            elif isinstance(st, ast.Expr) and isinstance(st.value, ast.Yield) and st.value.value is not None:
+                c = cls_of(st.value.value)
+                if c:
+                    (in_handler if handler else found)[c].append(stack)
+            elif isinstance(st, ast.While):
+                raise TranslatorError("while loop in _function_incompatibilities")
+
+    walk(fn.body, [], False)
+
+    def conj(stack):
+        parts = [(_gexp(t, asg) if pos else f"(negb {_gexp(t, asg)})") for t, pos in stack]
+        return "(" + " && ".join(parts) + ")" if parts else "true"
+
+    rules = {k: ("(" + "\n   || ".join(conj(st) for st in v) + ")" if v else "false") for k, v in found.items()}
+    # a failing default comparison reports too: the handler yields the same breakage under the same enclosing tests
+    want = [conj(st[:-1]) for st in found["default"] if st and ast.unparse(st[-1][0]).startswith("old_param.default")]
+    if sorted(conj(st) for st in in_handler["default"]) != sorted(want) or any(v for k, v in in_handler.items() if k != "default"):
+        raise TranslatorError("exception handlers of _function_incompatibilities no longer report exactly the default breakage of their try block")
+    return rules
+
+
+def _write_guards(fn) -> Path:
+    rules = _paths(fn)
+    out = ["(* GENERATED by harness/translate/c10_tables.py from /repo/src/_griffe/diff.py:_function_incompatibilities -- do not edit *)",
+           "(* path conditions: the tests under which each parameter breakage is yielded.  ok/nk kinds and oreq/nreq required-ness of",
+           "   the old/new parameter, present = the loop parameter's name occurs on the other side, sw/inc = values of `swallowed` /",
+           "   `incompatible_kind`, same_index = new_index == old_index, differ = old_param.default != new_param.default *)",
+           "From Coq Require Import List Bool.", "From Verif Require Import Model.C10_kinds Gen.C10_tables.", "Import ListNotations.", ""]
+    for k in BREAKS.values():
+        out += [f"Definition rule_{k} {GUARD_ARGS} : bool :=", "  " + rules[k] + ".", ""]
+    p = VERIF / "coq/Gen/C10_guards.v"
+    text = "\n".join(out)
+    if not p.exists() or p.read_text() != text:
+        p.write_text(text)
     return p
 
 
@@ -188,8 +293,7 @@ def _check_skeleton(fn, has_collision: bool) -> None:
     tests = [ast.unparse(n.test) for n in ast.walk(fn) if isinstance(n, ast.If)]
     # the return-type rule follows the parameter rules; it is outside this property
     tests = [t for t in tests if "_returns_are_compatible" not in t]
-    if sorted(tests) != sorted(GUARDS):
-        raise TranslatorError(f"`if` tests of _function_incompatibilities changed: {sorted(set(tests) ^ set(GUARDS))}")
+    # (the `if` tests themselves are translated into Gen/C10_guards.v and tied to the model by proof; GUARDS documents them)
     loops = [(ast.unparse(n.target), ast.unparse(n.iter)) for n in ast.walk(fn) if isinstance(n, ast.For)]
     if loops != [("(old_index, old_param)", "enumerate(old_function.parameters)"), ("new_param", "new_function.parameters")]:
         raise TranslatorError(f"loops of _function_incompatibilities changed: {loops}")
